@@ -15,6 +15,22 @@ def pkey (f : List String) : Bytes :=
   | [st, r, h, t, c, s] => Gen.Keys.rollappPacketKey (status! st) (hex! r) (nat! h) (ptype! t) (hex! c) (nat! s)
   | _ => []
 
+/-- seven decimal tokens → calendar fields -/
+def timeF! (f : List String) : TimeF :=
+  match f with
+  | [y, mo, d, h, mi, s, ns] => ⟨nat! y, nat! mo, nat! d, nat! h, nat! mi, nat! s, nat! ns⟩
+  | _ => ⟨0, 0, 0, 0, 0, 0, 0⟩
+
+/-- the op line carries calendar fields; a tuple that is not a calendar date (Go's `time.Date` would
+    normalise it to another one) is answered `invalid-date` by both sides (proleptic Gregorian rule) -/
+def validDate (t : TimeF) : Bool :=
+  let leap := (t.Y % 4 == 0 && t.Y % 100 != 0) || t.Y % 400 == 0
+  let dim := if t.M == 2 then (if leap then 29 else 28)
+    else if t.M == 4 || t.M == 6 || t.M == 9 || t.M == 11 then 30 else 31
+  1 ≤ t.M && t.M ≤ 12 && 1 ≤ t.D && t.D ≤ dim && t.h < 24 && t.m < 60 && t.s < 60 && t.ns < 1000000000
+
+def optHex (o : Option Bytes) : String := match o with | none => "nil" | some b => toHexD b
+
 def cmp (a b : Bytes) : String :=
   if lexLt a b then "-1" else if lexLt b a then "1" else "0"
 
@@ -50,6 +66,34 @@ def step (_ : Unit) (f : List String) : Unit × String :=
   | ["seqscan", r, r', a, st] =>
       toString (isPrefix (Gen.Keys.sequencersByRollappKey (hex! r))
         (Gen.Keys.sequencerByRollappByStatusKey (hex! r') (hex! a) (if st = "1" then .bonded else .unbonded)))
+  | "tfmt" :: _off :: rest =>
+      let t := timeF! rest
+      if validDate t then toHexD (fmtTime t) else "invalid-date"
+  | "tcmp" :: y :: mo :: d :: h :: mi :: s :: ns :: rest =>
+      let a := timeF! [y, mo, d, h, mi, s, ns]
+      let b := timeF! rest
+      if validDate a && validDate b then
+        s!"{cmp (Gen.Keys.noticeQueueByTimeKey a) (Gen.Keys.noticeQueueByTimeKey b)} {cmp a.fields b.fields}"
+      else "invalid-date"
+  | "nqkey" :: a :: rest =>
+      let t := timeF! rest
+      if validDate t then toHexD (Gen.Keys.noticeQueueBySeqTimeKey (hex! a) t) else "invalid-date"
+  | "nqscan" :: y :: mo :: d :: h :: mi :: s :: ns :: a :: rest =>
+      let T := timeF! [y, mo, d, h, mi, s, ns]
+      let t := timeF! rest
+      if validDate T && validDate t then
+        let rg := noticeQueueRange T
+        toString (inRangeO rg.1 rg.2 (Gen.Keys.noticeQueueBySeqTimeKey (hex! a) t))
+      else "invalid-date"
+  | ["nqother", y, mo, d, h, mi, s, ns, k] =>
+      let T := timeF! [y, mo, d, h, mi, s, ns]
+      if validDate T then
+        let rg := noticeQueueRange T
+        toString (inRangeO rg.1 rg.2 (hex! k))
+      else "invalid-date"
+  | ["pend", p] => optHex (prefixEnd (hex! p))
+  | ["sqkeys", a] =>
+      s!"{toHexD (Gen.Keys.sequencerKey (hex! a))} {toHexD (Gen.Keys.proposerByRollappKey (hex! a))} {toHexD (Gen.Keys.successorByRollappKey (hex! a))}"
   | _ => "bad-op")
 
 def drv : Drv := { σ := Unit, init := (), step := step }
